@@ -133,6 +133,36 @@ pub fn write_all(s: &mut TcpStream, mut b: &[u8]) -> bool {
 
 /// Send `bytes` cut at `cuts` (sorted offsets), one write per segment, sleeping `gap_us`
 /// of virtual time between segments.
+/// Like `send_segmented`, also returning for every segment (end offset, virtual time just before
+/// it was written): no byte of a segment can reach the peer before that instant.
+pub fn send_segmented_timed(s: &mut TcpStream, bytes: &[u8], cuts: &[usize], gap_us: u64) -> (bool, Vec<(usize, u64)>) {
+    let mut start = 0;
+    let mut ends: Vec<usize> = cuts.iter().copied().filter(|&c| c > 0 && c < bytes.len()).collect();
+    ends.sort_unstable();
+    ends.dedup();
+    ends.push(bytes.len());
+    let mut times = Vec::new();
+    for e in ends {
+        if e <= start {
+            continue;
+        }
+        times.push((e, humsim::sim::now_ns()));
+        if !write_all(s, &bytes[start..e]) {
+            return (false, times);
+        }
+        start = e;
+        if e < bytes.len() && gap_us > 0 {
+            humsim::thread::sleep(Duration::from_micros(gap_us));
+        }
+    }
+    (true, times)
+}
+
+/// The instant before which byte `last` (offset of a message's last byte) cannot have been sent.
+pub fn sent_not_before(times: &[(usize, u64)], last: usize, fallback: u64) -> u64 {
+    times.iter().find(|(e, _)| *e > last).map(|(_, t)| *t).unwrap_or(fallback)
+}
+
 pub fn send_segmented(s: &mut TcpStream, bytes: &[u8], cuts: &[usize], gap_us: u64) -> bool {
     let mut start = 0;
     let mut ends: Vec<usize> = cuts.iter().copied().filter(|&c| c > 0 && c < bytes.len()).collect();
